@@ -87,6 +87,13 @@ Theorem C13_up_to_last_newline_partial : forall ws, nl_only_at_end ws ->
   reported_of (Some n) (events ws) = upto_last_nl (writes_of (Some n) ws).
 Proof. exact model_upto_partial. Qed.
 
+(** the same with the hypothesis restricted to the writes of that trace: what
+    the other threads / tasks write does not matter *)
+Theorem C13_up_to_last_newline_partial_per_trace : forall ws n, n <> 0 ->
+  nl_only_at_end_for (Some n) ws ->
+  reported_of (Some n) (events ws) = upto_last_nl (writes_of (Some n) ws).
+Proof. exact model_upto_partial_per_trace. Qed.
+
 (** non-vacuity: two traces and untraced code interleaved, lines assembled
     from partial writes (print('a','b') = 'a',' ','b','\n'), an empty write,
     an unfinished last line; the hypothesis of the partial theorem holds, the
@@ -123,3 +130,4 @@ Print Assumptions C13_spec_upto_last_nl.
 Print Assumptions C13_up_to_last_newline_refuted.
 Print Assumptions C13_up_to_last_newline_iff.
 Print Assumptions C13_up_to_last_newline_partial.
+Print Assumptions C13_up_to_last_newline_partial_per_trace.
